@@ -154,17 +154,21 @@ def processLine (acc : Acc) (line : String) : Acc :=
         let implPost := applyState acc.cur (kvOf deltaToks)
         let implBranch := if implOk then implPost else applyState acc.cur okv "b."
         let bd := okv.get "bd" == "1"
-        let x : Ext := { ok := implOk, pairs := implPost.pairs, port := implPost.port, dg := implPost.dg, dgx := implPost.dgx }
+        -- `later=1`: a later message of the same transaction failed; `hok=1`: this message's handler had succeeded.
+        -- The transaction's branch is discarded (`deliver`): rejected, nothing changed, whatever the handler did.
+        let later := (kvOf args).get "later" == "1"
+        let hok := okv.get "hok" == "1"
+        let x : Ext := { ok := if later then hok else implOk, pairs := implPost.pairs, port := implPost.port, dg := implPost.dg, dgx := implPost.dgx }
         let r := handle acc.gov x acc.cur op
-        let modelOk := okB r.res
-        let modelPost := exec acc.gov x acc.cur op
+        let modelOk := okB r.res && !later
+        let modelPost := if later then acc.cur else exec acc.gov x acc.cur op
         -- a write the model makes must dirty the store; the converse is not demanded: re-writing a nil list as an empty one
         -- changes the stored bytes but not the parameters (the nil/empty normalisation) — wrong authorities are held to
         -- "store untouched" by the monitor `authority_first`, not by this comparison
         let branchDiff := !modelOk && !implOk &&
           (!Spec.sameParams r.st implBranch || (!(isPriv op && op.auth == acc.gov) && decide (r.st ≠ acc.cur) && !bd))
         let comps : List String :=
-          (if modelOk != implOk then ["outcome"] else []) ++
+          (if modelOk != implOk || (later && okB r.res != hok) then ["outcome"] else []) ++
           (if !Spec.sameParams modelPost implPost then ["params"] else []) ++
           (if branchDiff then ["branch"] else []) ++
           (if modelPost.pairs != implPost.pairs || modelPost.port != implPost.port || modelPost.dgx != implPost.dgx ||
@@ -172,7 +176,7 @@ def processLine (acc : Acc) (line : String) : Acc :=
         let tr : Spec.Tr := { gov := acc.gov, pre := acc.cur, op := op, ok := implOk, bd := bd, branch := implBranch, post := implPost }
         let viol := Spec.monitors.filterMap (fun (pid, name, f) => if f tr then none else some s!"{seq} V {pid} {name}")
         let why := if op.auth == acc.gov then reason r.res else "auth-" ++ authClass acc.gov op.auth
-        let tag := s!"{kind}/{if implOk then "ok" else "rej"}/{why}"
+        let tag := s!"{kind}/{if implOk then "ok" else "rej"}/{why}{if later then "/later" else ""}"
         let l :=
           if comps.isEmpty then s!"{seq} A {tag}"
           else s!"{seq} D {tag} comps={",".intercalate comps} model={if modelOk then "ok" else "rej:" ++ reason r.res} impl={implClass} " ++
